@@ -148,20 +148,6 @@ def _eigh_one(A, cplx, B=None):
                 for j in range(D):
                     e = SC(V[i, j])
                     CTX.fact(z3.And(e.re.z >= -1, e.re.z <= 1, e.im.z >= -1, e.im.z <= 1), simple=True)
-            # reconstruction of the triangle LAPACK reads (UPLO='L'):  A[i,j] = sum_k w_k V[i,k] conj(V[j,k]),  i >= j
-            for i in range(D):
-                for j in range(i + 1):
-                    s = 0
-                    for k in range(D):
-                        s = V[i, k] * V[j, k].conjugate() * w[k] + s
-                    if i == j:
-                        CTX.fact(SC(s).re.z == SC(A[i, i]).re.z)
-                    else:
-                        _eq_fact(s, A[i, j])
-            if D == 2:
-                # product of the eigenvalues = determinant of the Hermitian matrix LAPACK sees
-                det = SC(A[0, 0]).re * SC(A[1, 1]).re - (SC(A[1, 0]).re * SC(A[1, 0]).re + SC(A[1, 0]).im * SC(A[1, 0]).im)
-                CTX.fact((w[0] * w[1]).z == SR(det).z)
         return (w, V)
 
     key_mat = A if B is None else np.concatenate([A.reshape(-1), B.reshape(-1)]).reshape(2, D, D)
